@@ -159,6 +159,8 @@ unsafe impl<#[may_dangle] T> Drop for Rc<T> {
 
 unsafe fn drop_unreachable<T>(this: &mut Rc<T>) {
     debug!("cactusref detected unreachable Rc");
+    #[cfg(cactusref_verif)]
+    crate::verif::bump(&crate::verif::PATH_PLAIN, 1);
     let forward = Link::forward(this.ptr);
     let backward = Link::backward(this.ptr);
     // Remove reverse links so `this` is not included in cycle detection for
@@ -192,11 +194,15 @@ unsafe fn drop_unreachable<T>(this: &mut Rc<T>) {
         // Move `T` out of the `RcBox`. Dropping an uninitialized `MaybeUninit`
         // has no effect.
         let inner = mem::replace(&mut (*rcbox).value, MaybeUninit::uninit());
+        #[cfg(cactusref_verif)]
+        crate::verif::poison(ptr::addr_of_mut!((*rcbox).value));
         // destroy the contained `T`.
         drop(inner.assume_init());
         // Move the links `HashMap` out of the `RcBox`. Dropping an uninitialized
         // `MaybeUninit` has no effect.
         let links = mem::replace(&mut (*rcbox).links, MaybeUninit::uninit());
+        #[cfg(cactusref_verif)]
+        crate::verif::poison(ptr::addr_of_mut!((*rcbox).links));
         // Destroy the heap-allocated links.
         drop(links.assume_init());
     }
@@ -218,6 +224,11 @@ unsafe fn drop_cycle<T>(cycle: HashMap<Link<T>, usize>) {
         "cactusref detected orphaned cycle with {} objects",
         cycle.len()
     );
+    #[cfg(cactusref_verif)]
+    {
+        crate::verif::bump(&crate::verif::PATH_CYCLE, 1);
+        crate::verif::bump(&crate::verif::CYCLE_MEMBERS, cycle.len());
+    }
     // Iterate over all the nodes in the cycle, bust all of the links. All nodes
     // in the cycle are reachable by other nodes in the cycle, so removing
     // all cycle-internal links won't result in a leak.
@@ -271,6 +282,8 @@ unsafe fn drop_cycle<T>(cycle: HashMap<Link<T>, usize>) {
         if !ptr.is_dead() {
             // This object continues to be referenced outside the cycle in
             // another part of the graph.
+            #[cfg(cactusref_verif)]
+            crate::verif::bump(&crate::verif::CYCLE_SURVIVORS, 1);
             continue;
         }
 
@@ -288,6 +301,11 @@ unsafe fn drop_cycle<T>(cycle: HashMap<Link<T>, usize>) {
             // Move the links `HashMap` out of the `RcBox`. Dropping an
             // uninitialized `MaybeUninit` has no effect.
             let links = mem::replace(&mut (*rcbox).links, MaybeUninit::uninit());
+            #[cfg(cactusref_verif)]
+            {
+                crate::verif::poison(ptr::addr_of_mut!((*rcbox).value));
+                crate::verif::poison(ptr::addr_of_mut!((*rcbox).links));
+            }
             trace!("cactusref deconstructed member {:p} of orphan cycle", rcbox);
             // Move `T` and the `HashMap` out of the `RcBox` to be dropped after
             // busting the cycle.
@@ -361,6 +379,8 @@ unsafe fn drop_cycle<T>(cycle: HashMap<Link<T>, usize>) {
 // |      |----------| <--------|
 // |--------------------|
 unsafe fn drop_unreachable_with_adoptions<T>(this: &mut Rc<T>) {
+    #[cfg(cactusref_verif)]
+    crate::verif::bump(&crate::verif::PATH_ZERO_WITH_LINKS, 1);
     // Construct a forward and back link from `this` so we can
     // purge it from the adopted `links`.
     let forward = Link::forward(this.ptr);
@@ -410,11 +430,15 @@ unsafe fn drop_unreachable_with_adoptions<T>(this: &mut Rc<T>) {
         // Move `T` out of the `RcBox`. Dropping an uninitialized `MaybeUninit`
         // has no effect.
         let inner = mem::replace(&mut (*rcbox).value, MaybeUninit::uninit());
+        #[cfg(cactusref_verif)]
+        crate::verif::poison(ptr::addr_of_mut!((*rcbox).value));
         // destroy the contained `T`.
         drop(inner.assume_init());
         // Move the links `HashMap` out of the `RcBox`. Dropping an uninitialized
         // `MaybeUninit` has no effect.
         let links = mem::replace(&mut (*rcbox).links, MaybeUninit::uninit());
+        #[cfg(cactusref_verif)]
+        crate::verif::poison(ptr::addr_of_mut!((*rcbox).links));
         // Destroy the heap-allocated links.
         drop(links.assume_init());
     }
